@@ -224,3 +224,5 @@ pub assume_specification<T, E> [std::result::Result::<T, E>::unwrap_or] (r: std:
 pub open spec fn pk_mel_sym() -> PoolKey { PoolKey { left: Denom::Mel, right: Denom::Sym } }
 pub open spec fn pk_mel_erg() -> PoolKey { PoolKey { left: Denom::Erg, right: Denom::Mel } }
 pub open spec fn pk_erg_sym() -> PoolKey { PoolKey { left: Denom::Erg, right: Denom::Sym } }
+pub assume_specification<'a, T: Copy> [std::option::Option::<&'a T>::copied] (o: std::option::Option<&'a T>) -> (r: std::option::Option<T>)
+    ensures r == (match o { Some(x) => Some(*x), None => None::<T> });
